@@ -12,6 +12,10 @@ OntQ == {Tx("x", 0, 2, 0)}
 EvmS == {Tx("a", n, gp, 0) : n \in 0..1, gp \in {1, 2}} \cup {Tx("b", 1, 1, 0), Tx("b", 2, 1, 0)}
 \* deep: one sender, two competing transactions for nonce 1; small enough for the COMPLETE reachable graph (no depth bound)
 EvmD == {Tx("a", 0, 1, 0), Tx("a", 1, 1, 0), Tx("a", 1, 2, 0)}
+\* holes: the sender with a non-zero account nonce, three consecutive nonces, no other transaction; COMPLETE reachable graph:
+\* every way in which expiry, commits and missing head nonces can punch holes into one sender's nonce run
+EvmH == {Tx("b", 1, 1, 0), Tx("b", 2, 1, 0), Tx("b", 3, 1, 0)}
+OntNone == {}
 \* thorough: gas prices around the 1% replacement threshold, variants (equal price, different hash), two Ontology transactions
 EvmT == {Tx("a", n, gp, v) : n \in 0..2, gp \in {100, 101, 102}, v \in {0}} \cup {Tx("a", 0, 100, 1)}
         \cup {Tx("b", n, gp, 0) : n \in 1..3, gp \in {100, 102}}
